@@ -27,8 +27,12 @@
 EXTENDS Integers, Sequences, FiniteSets, TLC
 
 CONSTANTS
-    ShardFailureFix,  \* TRUE: repaired simple_stats (re-parses when an item reports failed shards although errors=false)
+    ShardFailureFix,  \* TRUE: repaired simple_stats (re-parses when an item is failed by the predicate of both paths - failed shards,
+                      \* or a status > 299 without an `error` such as a delete of a missing document - although errors=false)
                       \* FALSE: the code as it is (trusts the top-level `errors` flag)
+    DescriptionSortFix, \* TRUE: repaired error_description (orders (status, None) and (status, text)); FALSE: the code as it is:
+                      \* sorted() raises TypeError when one status occurs with and without a reason (delete not_found + update of a
+                      \* missing document, both 404)
     CursorFix,        \* TRUE: repaired SearchAfterExtractor (cursor = `sort` of the last hit);
                       \* FALSE: the code as it is (regex on the raw text after the last "sort" token)
     CursorRawDecode,  \* only read when CursorFix = FALSE.  TRUE: the partial repair of SearchAfterExtractor proposed with this check
@@ -175,21 +179,49 @@ Details(tree) == {ErrDetail(DataOf(Items(tree)[i])) : i \in FailedIdx(tree)}
 
 TookOf(tree) == LET x == Lookup(tree, <<"took">>) IN IF x.t = "absent" THEN NullV ELSE x
 
+(* error_description: sorted(set of (status, reason)) compares None with a string when a status occurs with and without reason *)
+SortRaises(ds) == ~DescriptionSortFix /\ \E a, b \in ds : a.st = b.st /\ a.r = NullV /\ b.r # NullV
+(* the error description as far as it does not depend on the text of the reasons: entries ordered by (status, reason or ""),  *)
+(* i.e. per status the entries without a message first; at most 5 entries, then "TRUNCATED" and <count>x<status> per status *)
+NoDesc == [ents |-> <<>>, trunc |-> FALSE, summary |-> <<>>]
+RECURSIVE AscSeq(_)
+AscSeq(S) == IF S = {} THEN <<>> ELSE LET m == CHOOSE x \in S : \A y \in S : x <= y IN <<m>> \o AscSeq(S \ {m})
+Rep(n, x) == [i \in 1..n |-> x]
+RECURSIVE EntriesFor(_, _)
+EntriesFor(sts, ds) ==
+    IF sts = <<>> THEN <<>>
+    ELSE LET mine == {d \in ds : d.st = Head(sts)}
+             bare == Cardinality({d \in mine : ~Truthy(d.r)})
+         IN Rep(bare, [st |-> Head(sts), msg |-> FALSE]) \o Rep(Cardinality(mine) - bare, [st |-> Head(sts), msg |-> TRUE])
+            \o EntriesFor(Tail(sts), ds)
+Description(ds) ==
+    IF ds = {} THEN NoDesc
+    ELSE LET sts == AscSeq({d.st : d \in ds})
+             all == EntriesFor(sts, ds)
+         IN [ents |-> SubSeq(all, 1, IF Len(all) > 5 THEN 5 ELSE Len(all)),
+             trunc |-> Len(all) > 5,
+             summary |-> IF Len(all) > 5 THEN [i \in 1..Len(sts) |-> [n |-> Cardinality({d \in ds : d.st = sts[i]}), st |-> sts[i]]] ELSE <<>>]
+
+RaisedStats == [success |-> FALSE, sc |-> -2, ec |-> -2, took |-> ErrorV, details |-> {}, desc |-> NoDesc]     \* the call raised
+
 (* counts: -1 = None (not determined) *)
 DetailedStats(tree) ==
-    [success |-> NumFailed(tree) = 0, sc |-> NumItems(tree) - NumFailed(tree), ec |-> NumFailed(tree),
-     took |-> TookOf(tree), details |-> Details(tree)]
+    IF SortRaises(Details(tree)) THEN RaisedStats
+    ELSE [success |-> NumFailed(tree) = 0, sc |-> NumItems(tree) - NumFailed(tree), ec |-> NumFailed(tree),
+          took |-> TookOf(tree), details |-> Details(tree), desc |-> Description(Details(tree))]
 
 SimpleStats(tree, size, unit) ==
     LET pr == Parse(tree, BulkReq).props
         reparse == \/ Truthy(GetOr(pr, "errors", FalseV))
-                   \/ ShardFailureFix /\ \E i \in 1..Len(Items(tree)) : ShardsFailed(DataOf(Items(tree)[i]))
+                   \/ ShardFailureFix /\ \E i \in 1..Len(Items(tree)) : Failed(DataOf(Items(tree)[i]))
         nf == IF reparse THEN NumFailed(tree) ELSE 0
-    IN [success |-> nf = 0,
-        sc |-> IF reparse THEN NumItems(tree) - nf ELSE IF unit = "docs" THEN size ELSE -1,
-        ec |-> nf,
-        took |-> GetOr(pr, "took", NullV),
-        details |-> IF reparse THEN Details(tree) ELSE {}]
+    IN IF reparse /\ SortRaises(Details(tree)) THEN RaisedStats
+       ELSE [success |-> nf = 0,
+             sc |-> IF reparse THEN NumItems(tree) - nf ELSE IF unit = "docs" THEN size ELSE -1,
+             ec |-> nf,
+             took |-> GetOr(pr, "took", NullV),
+             details |-> IF reparse THEN Details(tree) ELSE {},
+             desc |-> IF reparse THEN Description(Details(tree)) ELSE NoDesc]
 
 (* the shapes Elasticsearch returns for _bulk: `errors` is true iff some item carries an `error`;   *)
 (* every item has a numeric status; an item with an `error` has status > 299                        *)
@@ -197,7 +229,7 @@ BulkShape(tree, size, unit) ==
     /\ Lookup(tree, <<"errors">>) \in {TrueV, FalseV}
     /\ (Lookup(tree, <<"errors">>) = TrueV) <=> (\E i \in 1..Len(Items(tree)) : HasError(DataOf(Items(tree)[i])))
     /\ \A i \in 1..Len(Items(tree)) : LET d == DataOf(Items(tree)[i])
-                                      IN HasError(d) <=> N(Lookup(d, <<"status">>)) > 299
+                                      IN HasError(d) => N(Lookup(d, <<"status">>)) > 299   \* (a delete of a missing document: 404, no error)
     /\ Lookup(tree, <<"took">>).t = "s"
     /\ unit = "docs" => size = NumItems(tree)
 
@@ -224,7 +256,7 @@ BulkHolds(c, tree, unit, fast, det) ==
          [] c = "DetailedTook" -> d.Took
          [] c = "PathsAgree" -> /\ fast.success = det.success /\ fast.ec = det.ec
                                 /\ fast.sc \in {det.sc, -1} /\ fast.took = det.took
-                                /\ fast.details = det.details
+                                /\ fast.details = det.details /\ fast.desc = det.desc
 BulkViolated(tree, size, unit, fast, det) ==
     IF BulkShape(tree, size, unit) THEN {c \in BulkClauses : ~BulkHolds(c, tree, unit, fast, det)} ELSE {}
 
@@ -429,7 +461,12 @@ BodyViolated(tree, got) ==
                      /\ EqIfPresent(sh("skipped"), got.shards[3]) /\ EqIfPresent(sh("failed"), got.shards[4]) THEN {} ELSE {"ShardsEqualFull"})
 PagesViolated(pages, got) ==      \* common to scroll-search and paginated-search
     LET k == got.served
-    IN IF got.exc # "none" \/ k = 0 THEN {}
+        tot == FullTotal(pages[1])
+    IN IF k = 0 THEN {}
+       \* a TypeError can only come from arithmetic on the extracted total (took is a number in every page): the full parse has a number there
+       ELSE IF got.exc = "type" THEN (IF tot.t = "s" /\ tot.ty = "number" /\ \A j \in 1..Len(pages) : Lookup(pages[j], <<"took">>).ty = "number"
+                                      THEN {"HitsTotalEqualsFull"} ELSE {})
+       ELSE IF got.exc # "none" THEN {}
        ELSE (IF got.pages = k THEN {} ELSE {"PagesEqualFetched"})
             \cup (IF EqIfPresent(FullTotal(pages[1]), got.hits) THEN {} ELSE {"HitsTotalEqualsFull"})
             \cup (IF EqIfPresent(Lookup(pages[1], <<"hits", "total", "relation">>), got.rel) THEN {} ELSE {"RelationEqualsFull"})
